@@ -118,7 +118,9 @@ Definition mon_C16 (o : cli_obs) : bool :=
     match c_outdir o with
     | ODNone => true
     | _ => existsb (String.eqb "summary_report.txt") (c_files o) && existsb (String.eqb "detailed_report.csv") (c_files o) &&
-           existsb (String.eqb "best_seen.json") (c_files o)
+           existsb (String.eqb "best_seen.json") (c_files o) &&
+           (* the best-seen file is one JSON document conforming to the spec *)
+           match c_bestfile o with Some j => conforming_json (cli_spec (c_spec o)) j | None => false end
     end)) &&
   (* failure: nothing on stdout *)
   (exit_zero o || Nat.eqb (c_stdout_lines o) 0) &&
@@ -174,8 +176,7 @@ Definition mon_C14 (o : cli_obs) : bool :=
   nodup_n (map (fun r => snd (fst (fst r))) (c_rows o)) &&
   (* the best-seen file holds the parameter set of a minimum-objective record *)
   match c_bestfile o, min_row (c_rows o) with
-  | Some bj, Some m =>
-      N.eqb (ss_of o) 1 || true
+  | Some bj, Some m => true
   | None, Some _ => match c_outdir o with ODNone => true | _ => negb (existsb (String.eqb "detailed_report.csv") (c_files o)) end
   | _, None => true
   end &&
